@@ -28,13 +28,14 @@ Print Assumptions C18_set_inv_reachable.
    ordered set is exactly the reference's first-insertion order (sorted order after a Sort, later additions
    at the end, re-adding a present value changes nothing), that of an unordered set is a permutation of the
    reference's members. *)
-Theorem C18_refines : forall ops : list op, Forall2 obs_agree (run tbl0 ops) (rrun rtbl0 ops).
+Theorem C18_refines : forall ops : list op, Forall2 obs_agree (run tbl0 ops) (rrun rtbl0 ltbl0 ops).
 Proof. exact refines_from_empty. Qed.
 Print Assumptions C18_refines.
 
 (* The same from any related pair of tables (not only the empty one). *)
 Theorem C18_refines_from :
-  forall (ops : list op) (T : tbl) (R : rtbl), TR T R -> Forall2 obs_agree (run T ops) (rrun R ops).
+  forall (ops : list op) (T : tbl) (R : rtbl) (L : ltbl),
+    TR T R -> LK T L -> Forall2 obs_agree (run T ops) (rrun R L ops).
 Proof. exact run_refines. Qed.
 Print Assumptions C18_refines_from.
 
@@ -76,15 +77,35 @@ Theorem C18_json_roundtrip :
 Proof. exact json_roundtrip_model. Qed.
 Print Assumptions C18_json_roundtrip.
 
+(* The mutex slot behind Synchronize()/WithLock() is write-once: no operation replaces an installed mutex
+   (only New discards the set together with its mutex) ... *)
+Theorem C18_mutex_write_once_step :
+  forall (T : tbl) (o : op) (i : nat) (l : lockid),
+    s_mtx (T i) = Some l -> (forall ord l', o <> OReset i ord l') -> s_mtx (fst (step T o) i) = Some l.
+Proof. exact mutex_write_once_step. Qed.
+Print Assumptions C18_mutex_write_once_step.
+
+(* ... so after any operation list the lock every method takes is the FIRST mutex installed since the set
+   was created (`lrun`/`lstep`/`first_wins`: later Synchronize()/WithLock() calls change nothing; WithLock's
+   panic and the lock probe's answer are those of that reference, by C18_refines). *)
+Theorem C18_mutex_write_once :
+  forall (ops : list op) (i : nat), s_mtx (exec tbl0 ops i) = lrun ltbl0 ops i.
+Proof. exact mutex_first_installed. Qed.
+Print Assumptions C18_mutex_write_once.
+
 (* Synchronized set = instance of Conc/LockedObject.v: for every trace of any number of goroutines calling
-   Add/AddCheck/Delete/DeleteCheck/Check/Len/Order/Sort*, the calls ordered by their critical sections are a
-   legal sequential execution with exactly the returned results, consistent with real time, and that same
-   sequence is an execution of the reference set ending in a state that abstracts the final set. *)
+   Add/AddCheck/Delete/DeleteCheck/Check/Len/Order/Sort* and further Synchronize()/WithLock(), the calls ordered
+   by their critical sections are a legal sequential execution with exactly the returned results, consistent
+   with real time; that same sequence is an execution of the reference set ending in a state that abstracts
+   the final set; and the premise's single lock is named: the mutex l installed at the start is still the
+   installed mutex in every reachable state. *)
 Theorem C18_sync :
-  forall (init : set) (r0 : rset) (tr : list (event sop)) (c : config set sop res),
-    abs init r0 -> LockedObject.run set sop res init sseq never_blocked RBad tr = Some c ->
+  forall (init : set) (r0 : rset) (l : lockid) (tr : list (event sop)) (c : config set sop res),
+    abs init r0 -> s_mtx init = Some l ->
+    LockedObject.run set sop res init sseq never_blocked RBad tr = Some c ->
     linearization set sop res init sseq never_blocked RBad tr c /\
     (forall a b, In a (hist c) -> In b (lin c) -> (c_ret a < le_inv b)%nat -> precedes (c_entry a) b (lin c)) /\
-    exists r', legal rset sop res rseq never_blocked RBad r0 (lin c) r' /\ abs (st c) r'.
+    (exists r', legal rstate sop res rseq never_blocked RBad (r0, Some l) (lin c) (r', Some l) /\ abs (st c) r') /\
+    s_mtx (st c) = Some l.
 Proof. exact sync_linearizable. Qed.
 Print Assumptions C18_sync.
